@@ -1,4 +1,5 @@
 pub mod c01;
+pub mod c02;
 pub mod c15;
 pub mod c16;
 pub mod c20;
@@ -8,6 +9,7 @@ use crate::PropEntry;
 pub fn registry() -> Vec<PropEntry> {
 	vec![
 		PropEntry { id: "C01", level: "exploration", check: c01::check, replay: c01::replay },
+		PropEntry { id: "C02", level: "exploration", check: c02::check, replay: c02::replay },
 		PropEntry { id: "C15", level: "exploration", check: c15::check, replay: c15::replay },
 		PropEntry { id: "C16", level: "exploration", check: c16::check, replay: c16::replay },
 		PropEntry { id: "C20", level: "exploration", check: c20::check, replay: c20::replay },
